@@ -266,10 +266,10 @@ end Bpmn.Lemmas.Builder
 namespace Bpmn.Lemmas.Builder
 open Bpmn.Model.Builder
 
-/-- an activity kind the builder stores -/
-def actOk (k : Kind) : Prop := k.stored = true ∧ k ≠ .startEvent ∧ k ≠ .endEvent
+/-- an activity kind the type switch `st` of `AddActivity` stores -/
+def actOk (st : Kind → Bool) (k : Kind) : Prop := st k = true ∧ k ≠ .startEvent ∧ k ≠ .endEvent
 
-instance (k : Kind) : Decidable (actOk k) := by unfold actOk; infer_instance
+instance (st : Kind → Bool) (k : Kind) : Decidable (actOk st k) := by unfold actOk; infer_instance
 
 theorem PBCore.mono {o : Nat → Nat} {lo n n' : Nat} {ps ps' : List Nat} {b : PB} (inv : PBCore o lo n ps b)
     (hn : n ≤ n') (hp : ∀ m ∈ ps, m ∈ ps') : PBCore o lo n' ps' b :=
@@ -303,17 +303,19 @@ theorem linkStore_noEnd {o : Nat → Nat} {lo n : Nat} {ps : List Nat} {b : PB} 
   · rw [setOut_kind]; exact inv.noEnd m hm
   · exact hk
 
-theorem addActivity_stored (o : Nat → Nat) (n : Nat) (b : PB) (k : Kind) (pre : Option Nat) (hk : k.stored = true) :
-    addActivity o n b k pre = match pre with
+theorem addActivity_stored (st : Kind → Bool) (o : Nat → Nat) (n : Nat) (b : PB) (k : Kind) (pre : Option Nat)
+    (hk : st k = true) :
+    addActivity st o n b k pre = match pre with
       | some m => (linkStore o n b (Id.preset m) k, n + 1)
       | none => (linkStore o (n + 1) b (Id.gen .activity (o n)) k, n + 2) := by
   cases pre <;> simp [addActivity, hk, linkStore, link]
 
-theorem addActivity_inv {o : Nat → Nat} (hinj : ∀ a b, o a = o b → a = b) {lo n : Nat} {ps : List Nat} {b : PB}
-    (inv : PBInv o lo n ps b) (k : Kind) (pre : Option Nat) (hk : actOk k) (hpre : ∀ m, pre = some m → m ∉ ps) :
-    PBInv o lo (addActivity o n b k pre).2 (pre.toList ++ ps) (addActivity o n b k pre).1 ∧
-      n ≤ (addActivity o n b k pre).2 := by
-  rw [addActivity_stored o n b k pre hk.1]
+theorem addActivity_inv {st : Kind → Bool} {o : Nat → Nat} (hinj : ∀ a b, o a = o b → a = b) {lo n : Nat}
+    {ps : List Nat} {b : PB}
+    (inv : PBInv o lo n ps b) (k : Kind) (pre : Option Nat) (hk : actOk st k) (hpre : ∀ m, pre = some m → m ∉ ps) :
+    PBInv o lo (addActivity st o n b k pre).2 (pre.toList ++ ps) (addActivity st o n b k pre).1 ∧
+      n ≤ (addActivity st o n b k pre).2 := by
+  rw [addActivity_stored st o n b k pre hk.1]
   cases pre with
   | some m =>
     refine ⟨⟨?_, ?_⟩, Nat.le_add_right n 1⟩
@@ -330,10 +332,12 @@ theorem addActivity_inv {o : Nat → Nat} (hinj : ∀ a b, o a = o b → a = b) 
         (by intro h; cases h) (Or.inl ⟨_, n, hlo, by omega, rfl⟩) (Nat.le_refl _) (by intro x hx; simpa using hx) hk.2.1
     · exact linkStore_noEnd inv1 _ k hk.2.2
 
-theorem addAll_inv {o : Nat → Nat} (hinj : ∀ a b, o a = o b → a = b) (acts : List (Kind × Option Nat)) :
-    ∀ {lo n : Nat} {ps : List Nat} {b : PB}, PBInv o lo n ps b → (∀ a ∈ acts, actOk a.1) →
+theorem addAll_inv {st : Kind → Bool} {o : Nat → Nat} (hinj : ∀ a b, o a = o b → a = b)
+    (acts : List (Kind × Option Nat)) :
+    ∀ {lo n : Nat} {ps : List Nat} {b : PB}, PBInv o lo n ps b → (∀ a ∈ acts, actOk st a.1) →
       (acts.filterMap (·.2)).Nodup → (∀ m ∈ acts.filterMap (·.2), m ∉ ps) →
-      PBInv o lo (addAll o n b acts).2 (acts.filterMap (·.2) ++ ps) (addAll o n b acts).1 ∧ n ≤ (addAll o n b acts).2 := by
+      PBInv o lo (addAll st o n b acts).2 (acts.filterMap (·.2) ++ ps) (addAll st o n b acts).1 ∧
+        n ≤ (addAll st o n b acts).2 := by
   induction acts with
   | nil => intro lo n ps b inv _ _ _; simpa [addAll] using inv
   | cons a rest ih =>
@@ -401,10 +405,11 @@ theorem outPB_wf {o : Nat → Nat} (hinj : ∀ a b, o a = o b → a = b) {lo n :
   · rw [setOut_kind] at hk; exact absurd hk (inv.noEnd m hm)
   · rfl
 
-theorem buildProcess_wf {o : Nat → Nat} (hinj : ∀ a b, o a = o b → a = b) (n : Nat) (acts : List (Kind × Option Nat))
-    (hok : ∀ a ∈ acts, actOk a.1) (hnd : (acts.filterMap (·.2)).Nodup) :
-    ProcWF o n (buildProcess o n acts).2 (acts.filterMap (·.2)) (buildProcess o n acts).1 ∧
-      n ≤ (buildProcess o n acts).2 := by
+theorem buildProcess_wf {st : Kind → Bool} {o : Nat → Nat} (hinj : ∀ a b, o a = o b → a = b) (n : Nat)
+    (acts : List (Kind × Option Nat))
+    (hok : ∀ a ∈ acts, actOk st a.1) (hnd : (acts.filterMap (·.2)).Nodup) :
+    ProcWF o n (buildProcess st o n acts).2 (acts.filterMap (·.2)) (buildProcess st o n acts).1 ∧
+      n ≤ (buildProcess st o n acts).2 := by
   have h0 := newPB_inv o n
   have h1 := addAll_inv hinj acts h0 hok hnd (by intro m _; simp)
   have h2 := outPB_wf hinj h1.1
@@ -413,12 +418,12 @@ theorem buildProcess_wf {o : Nat → Nat} (hinj : ∀ a b, o a = o b → a = b) 
   unfold buildProcess
   simp only [hn]
   constructor
-  · have : ProcWF o n ((addAll o (n + 2) (newPB o n).1 acts).2 + 4) (acts.filterMap (·.2))
-        (outPB o (addAll o (n + 2) (newPB o n).1 acts).2 (addAll o (n + 2) (newPB o n).1 acts).1).1 :=
+  · have : ProcWF o n ((addAll st o (n + 2) (newPB o n).1 acts).2 + 4) (acts.filterMap (·.2))
+        (outPB o (addAll st o (n + 2) (newPB o n).1 acts).2 (addAll st o (n + 2) (newPB o n).1 acts).1).1 :=
       { h2 with below := fun i hi => (h2.below i hi).mono (by omega) (fun _ h => h) }
     exact this
   · have := h1.2
-    show n ≤ (addAll o (n + 2) (newPB o n).1 acts).2 + 4
+    show n ≤ (addAll st o (n + 2) (newPB o n).1 acts).2 + 4
     omega
 
 end Bpmn.Lemmas.Builder
@@ -450,21 +455,21 @@ theorem below_disjoint {o : Nat → Nat} (hinj : ∀ a b, o a = o b → a = b) {
 
 /-- each script starts at a value of the call counter not below the one the previous build ended with
 (in between the definitions builder may have drawn ids of its own) -/
-def Chained (o : Nat → Nat) : Nat → List (Nat × List (Kind × Option Nat)) → Prop
+def Chained (st : Kind → Bool) (o : Nat → Nat) : Nat → List (Nat × List (Kind × Option Nat)) → Prop
   | _, [] => True
-  | lo, sc :: rest => lo ≤ sc.1 ∧ Chained o (buildProcess o sc.1 sc.2).2 rest
+  | lo, sc :: rest => lo ≤ sc.1 ∧ Chained st o (buildProcess st o sc.1 sc.2).2 rest
 
 def presetsOf (scripts : List (Nat × List (Kind × Option Nat))) : List Nat :=
   scripts.flatMap (fun sc => sc.2.filterMap (·.2))
 
-def builtProcs (o : Nat → Nat) (scripts : List (Nat × List (Kind × Option Nat))) : List Proc :=
-  scripts.map (fun sc => (buildProcess o sc.1 sc.2).1)
+def builtProcs (st : Kind → Bool) (o : Nat → Nat) (scripts : List (Nat × List (Kind × Option Nat))) : List Proc :=
+  scripts.map (fun sc => (buildProcess st o sc.1 sc.2).1)
 
-theorem built_ids_nodup {o : Nat → Nat} (hinj : ∀ a b, o a = o b → a = b) :
-    ∀ (scripts : List (Nat × List (Kind × Option Nat))) (lo : Nat), Chained o lo scripts →
-      (∀ sc ∈ scripts, ∀ a ∈ sc.2, actOk a.1) → (presetsOf scripts).Nodup →
-      ((builtProcs o scripts).flatMap Proc.ids).Nodup ∧
-      ∀ i ∈ (builtProcs o scripts).flatMap Proc.ids, ∃ hi, Below o lo hi (presetsOf scripts) i := by
+theorem built_ids_nodup {st : Kind → Bool} {o : Nat → Nat} (hinj : ∀ a b, o a = o b → a = b) :
+    ∀ (scripts : List (Nat × List (Kind × Option Nat))) (lo : Nat), Chained st o lo scripts →
+      (∀ sc ∈ scripts, ∀ a ∈ sc.2, actOk st a.1) → (presetsOf scripts).Nodup →
+      ((builtProcs st o scripts).flatMap Proc.ids).Nodup ∧
+      ∀ i ∈ (builtProcs st o scripts).flatMap Proc.ids, ∃ hi, Below o lo hi (presetsOf scripts) i := by
   intro scripts
   induction scripts with
   | nil => intro lo _ _ _; simp [builtProcs]
@@ -472,7 +477,7 @@ theorem built_ids_nodup {o : Nat → Nat} (hinj : ∀ a b, o a = o b → a = b) 
     intro lo hch hok hnd
     simp only [presetsOf, List.flatMap_cons, List.nodup_append] at hnd
     obtain ⟨wf, hle⟩ := buildProcess_wf hinj sc.1 sc.2 (hok sc (by simp)) hnd.1
-    obtain ⟨ih1, ih2⟩ := ih (buildProcess o sc.1 sc.2).2 hch.2
+    obtain ⟨ih1, ih2⟩ := ih (buildProcess st o sc.1 sc.2).2 hch.2
       (fun sc' h => hok sc' (List.mem_cons_of_mem _ h)) hnd.2.1
     have hlo : lo ≤ sc.1 := hch.1
     simp only [builtProcs, List.map_cons, List.flatMap_cons]
